@@ -45,6 +45,15 @@ CHECKS = {
             "b_c, sole-isotope elements, missing atoms and every node of the 14 energy tables are checked, scalar and vector.",
             "The table text in nsf.py/nsf_tables.py is the specification; Pu/Cm element records are not judged.",
             "DESIGN.md section 4 C07"),
+    "C05": ("sweep of all 92 .nff tables (every node, midpoints, +/-ulp neighbours, range ends) against an independent "
+            "reader + Hypothesis search over atoms/energies/compounds/mirror parameters + sweep of the Cromer-Mann sets",
+            "f1/f2 at and around every tabulated node of every element are compared with bisect/two-point interpolation of "
+            "the independently read file (NaN outside the range); SLD, refraction index, energy/wavelength and scalar/vector "
+            "agreement, density linearity, isotope independence and reflectivity bounds are searched with generated "
+            "compounds; f0 limits and cut-off are swept over all coefficient sets that name an atom or ion.",
+            "Table files are the specification; the non-increasing stretch of si.nff is excluded; physical constants are "
+            "written out independently (CODATA 2006 as documented).",
+            "DESIGN.md section 4 C05"),
 }
 
 PENDING = {}
